@@ -285,19 +285,18 @@ func c04R4(p *core.Prog, r *core.Report) {
 			}
 			x.Set("granted", "1")
 			key := siteKey(p, x.Ins)
-			f := &x.St.Facts
 			heldKey := false
 			waitedFalse := false
 			waitedKnown := false
-			for _, a := range plainAtoms(f) {
-				if strings.HasSuffix(a.R, ".locked") && a.L == "0" && a.Op == "<" {
+			for h := range x.St.Hist {
+				if strings.HasPrefix(h, "0 < ") && strings.HasSuffix(h, ".locked") && !strings.Contains(h, "GetLockedLock(") {
 					heldKey = true
 				}
-				if strings.HasSuffix(a.L, ".waited") && a.Op == "==" {
+				if strings.HasSuffix(h, ".waited == false") {
+					waitedKnown, waitedFalse = true, true
+				}
+				if strings.HasSuffix(h, ".waited == true") {
 					waitedKnown = true
-					if a.R == "false" {
-						waitedFalse = true
-					}
 				}
 			}
 			switch {
@@ -305,7 +304,7 @@ func c04R4(p *core.Prog, r *core.Report) {
 				r.Hold(rule, key, x.Pos(), "key not held on this path (newcomer is not overtaking a held key's queue)")
 			case waitedFalse:
 				r.Hold(rule, key, x.Pos(), "no waiters")
-			case x.Get("prio") == "true" && f.HasPlain("("+cmd+".TimeoutFlag & 16) != 0"):
+			case x.Get("prio") == "true" && x.Passed("("+cmd+".TimeoutFlag & 16) != 0"):
 				r.Hold(rule, key, x.Pos(), "priority flag set and strictly higher than every waiter")
 			default:
 				_ = waitedKnown
